@@ -240,7 +240,7 @@ Proof.
   destruct name as [|c name]; [apply Hp|]. destruct plan as [vs|]; [|apply Hp].
   unfold run_method.
   destruct (existsb v_before vs || existsb v_raw_after vs).
-  - destruct j; cbn; try reflexivity; try congruence; try (exfalso; eapply Ha; reflexivity).
+  - destruct j; cbn [obind is_ok]; try reflexivity; try congruence; try (exfalso; eapply Ha; reflexivity).
   - cbn [obind]. destruct (run_before _ vs None j); cbn [obind is_ok]; try reflexivity.
     apply obind_not_ok. apply Hp.
 Qed.
@@ -300,7 +300,7 @@ Proof.
   - destruct j; try congruence; apply obind_not_ok; apply Hinner.
   - apply obind_not_ok. eapply omap_not_ok; eauto.
   - apply obind_not_ok. apply omap_not_ok with (x := (k, x)); [assumption|]. cbn. apply obind_not_ok. apply Hinner.
-  - assert (Hp : is_ok (plain_fields (dec f) (zero env f) fs (JObj kv)) = false)
+  - assert (Hp : is_ok (plain_fields (dec f) zero fs (JObj kv)) = false)
       by (eapply plain_fields_inner; eauto).
     destruct name as [|c name]; [exact Hp|]. destruct plan as [vs|]; [|exact Hp].
     apply run_method_inner. exact Hp.
